@@ -1,0 +1,366 @@
+//go:build verif
+
+// Contracts for the deductive verifier in /verif (govc). Only compiled with -tags verif.
+//
+// C37: path patterns match exactly their expansions; precedence is order-independent.
+//
+// Under contract: the count of expansions and its limit (NumVariants of the three node kinds,
+// PathPattern.parse), the trailing-slash rule of PathPatternMatches around doublestar.Match, the
+// verdict of PatternVariant.Compare as a lexicographic comparison (with lemmas: antisymmetric,
+// transitive), HighestPrecedencePattern returning one of the given variants, and the guards that
+// reject input (scanner prefix checks, group depth, optimize never failing on a parsed group).
+
+package patterns
+
+import "strings"
+
+var _ = strings.HasSuffix
+
+// ---- number of variants: the mathematical count of a render tree -------------------
+
+//@ func specUnit
+//@   pure
+
+// neutral element of a node's accumulation: 0 for an alt (sum), 1 otherwise (product / literal)
+func specUnit(n renderNode) int {
+	if _, ok := n.(alt); ok {
+		return 0
+	}
+	return 1
+}
+
+//@ func specAcc
+//@   pure
+
+// acc combined with the mathematical number of expansions of the children k, k+1, .. of node n:
+// multiplied for a seq, added for an alt; a literal has no children
+func specAcc(n renderNode, k int, acc int) int {
+	if s, ok := n.(seq); ok {
+		if k < 0 || k >= len(s) {
+			return acc
+		}
+		return specAcc(n, k+1, mulSaturated(acc, specAcc(s[k], 0, specUnit(s[k]))))
+	}
+	if a, ok := n.(alt); ok {
+		if k < 0 || k >= len(a) {
+			return acc
+		}
+		return specAcc(n, k+1, addSaturated(acc, specAcc(a[k], 0, specUnit(a[k]))))
+	}
+	return acc
+}
+
+// counting never wraps around (finding F3 was a wrapped product/sum): for non-negative operands the
+// helpers return the mathematical result when it fits and MaxInt otherwise
+//@ func mulSaturated
+//@   props C37
+//@   opaque
+//@   arith checked
+//@   requires a >= 0 && b >= 0
+//@   ensures (a * b <= 9223372036854775807 ==> result == a * b) && (a * b > 9223372036854775807 ==> result == 9223372036854775807) && result >= 0
+
+//@ func addSaturated
+//@   props C37
+//@   opaque
+//@   arith checked
+//@   requires a >= 0 && b >= 0
+//@   ensures (a + b <= 9223372036854775807 ==> result == a + b) && (a + b > 9223372036854775807 ==> result == 9223372036854775807) && result >= 0
+
+//@ func specNV
+//@   pure
+
+// mathematical number of expansions of a render tree: product over a seq, sum over an alt, 1 for
+// a literal
+func specNV(n renderNode) int { return specAcc(n, 0, specUnit(n)) }
+
+// dynamic dispatch: every implementation (literal, seq, alt) is verified against this clause
+//@ func (interfaces/prompting/patterns.renderNode).NumVariants
+//@   trusted
+//@   assigns nothing
+//@   ensures result == specNV(recv) && result >= 0
+
+//@ func (literal).NumVariants
+//@   props C37
+//@   ensures result == specNV(iface(n)) && result >= 0
+
+//@ func (seq).NumVariants
+//@   props C37
+//@   arith checked
+//@   requires len(n) < 9223372036854775807
+//@   ensures result == specNV(iface(n)) && result >= 0
+//@   loop 0: invariant -1 <= idx0 && idx0 < len(n) && num >= 0
+//@   loop 0: invariant specAcc(iface(n), idx0+1, num) == specNV(iface(n))
+
+//@ func (alt).NumVariants
+//@   props C37
+//@   arith checked
+//@   requires len(n) < 9223372036854775807
+//@   ensures result == specNV(iface(n)) && result >= 0
+//@   loop 0: invariant -1 <= idx0 && idx0 < len(n) && num >= 0
+//@   loop 0: invariant specAcc(iface(n), idx0+1, num) == specNV(iface(n))
+
+// ---- the limit on the number of expansions ---------------------------------------------
+
+//@ func (*PathPattern).parse
+//@   props C37
+//@   requires p != nil
+//@   ensures [limit] result == nil ==> specNV(p.renderTree) <= maxExpandedPatterns
+//@   ensures [stored] result == nil ==> p.original == pattern
+//@   ensures [start] len(pattern) == 0 || pattern[0] != '/' ==> result != nil
+
+//@ func ParsePathPattern
+//@   props C37
+//@   ensures [either] (result1 == nil) == (result0 != nil)
+//@   ensures [limit] result1 == nil ==> specNV(result0.renderTree) <= maxExpandedPatterns && result0.original == pattern
+
+//@ func (*PathPattern).NumVariants
+//@   props C37
+//@   requires p != nil
+//@   ensures result == specNV(p.renderTree)
+
+//@ func (*PathPattern).UnmarshalJSON
+//@   props C37
+//@   requires p != nil
+//@   ensures [limit] result == nil ==> specNV(p.renderTree) <= maxExpandedPatterns
+
+// ---- matching: the trailing-slash rule around doublestar.Match -------------------------
+
+//@ func PathPatternMatches
+//@   props C37
+//@   ensures [dironly] strings.HasSuffix(pattern, "/") && !strings.HasSuffix(path, "/") ==> !result0 && result1 == nil
+//@   ensures [malformed] final(err) != nil ==> !result0 && result1 == final(err)
+//@   ensures [direct] final(err) == nil && final(matched) ==> result0 && result1 == nil
+//@   ensures [noretry] final(err) == nil && !final(matched) && strings.HasSuffix(pattern, "/") ==> !result0 && result1 == nil
+//@   guard call v4.Match: [args] arg1 == path && (arg0 == pattern || (arg0 == pattern + "/" && !strings.HasSuffix(pattern, "/")))
+//@   guard call v4.Match: [dirs] !(strings.HasSuffix(pattern, "/") && !strings.HasSuffix(path, "/"))
+
+// ---- precedence ---------------------------------------------------------------------------
+
+//@ func HighestPrecedencePattern
+//@   props C37
+//@   nopanic
+//@   ensures [empty] len(patterns) == 0 ==> result1 == ErrNoPatterns
+//@   ensures [single] len(patterns) == 1 ==> result1 == nil && result0.variant == patterns[0].variant
+//@   ensures [member] result1 == nil ==> exists k int :: 0 <= k && k < len(patterns) && result0.variant == patterns[k].variant && result0.components == patterns[k].components && result0.regex == patterns[k].regex
+//@   guard call (PatternVariant).Compare: [samepath] arg2 == matchingPath
+//@   loop 0: invariant -1 <= idx0 && idx0 < len(patterns) - 1
+//@   loop 0: invariant (currHighest.variant == patterns[idx0+1].variant && currHighest.components == patterns[idx0+1].components && currHighest.regex == patterns[idx0+1].regex) || exists k int :: 0 <= k && k < len(patterns) && currHighest.variant == patterns[k].variant && currHighest.components == patterns[k].components && currHighest.regex == patterns[k].regex
+
+// ---- Compare: a lexicographic comparison of (component type, sub-key) sequences -------------
+
+//@ func specType
+//@   pure
+
+// type of the i-th component, the terminal marker past the end (what componentReader.next yields)
+func specType(cs []component, i int) componentType {
+	if i >= 0 && i < len(cs) {
+		return cs[i].compType
+	}
+	return compTerminal
+}
+
+//@ func specSubm
+//@   pure
+
+// the path text matched by the i-th component, "" past the end
+func specSubm(cs []component, ss []string, i int) string {
+	if i >= 0 && i < len(cs) && i < len(ss) {
+		return ss[i]
+	}
+	return ""
+}
+
+//@ func strLess
+//@   pure
+
+func strLess(a, b string) bool { return a < b }
+
+//@ func specAt
+//@   pure
+
+// what position i contributes to the comparison of two component sequences with sub-matches
+// sa / sb: -1 / 1 when it decides for the second / first sequence (higher component type wins;
+// at equal types a globstar or non-terminal doublestar that matched fewer bytes wins and a
+// literal with the greater text wins), 0 when both sequences end here with the same terminal
+// kind, 2 when the position is a tie and the comparison goes on
+func specAt(ca []component, sa []string, cb []component, sb []string, i int) int {
+	ta, tb := specType(ca, i), specType(cb, i)
+	if ta < tb {
+		return -1
+	}
+	if ta > tb {
+		return 1
+	}
+	ma, mb := specSubm(ca, sa, i), specSubm(cb, sb, i)
+	if ta == compGlobstar || ta == compSeparatorDoublestar {
+		if len(ma) > len(mb) {
+			return -1
+		}
+		if len(ma) < len(mb) {
+			return 1
+		}
+	}
+	if ta == compSeparatorDoublestarTerminal || ta == compSeparatorDoublestarSeparatorTerminal || ta == compTerminal {
+		return 0
+	}
+	if ta == compLiteral {
+		if strLess(ma, mb) {
+			return -1
+		}
+		if strLess(mb, ma) {
+			return 1
+		}
+	}
+	return 2
+}
+
+// specAt as a named function (usable as a quantifier trigger)
+//@ define at(ca []component, sa []string, cb []component, sb []string, i int) = specAt(ca, sa, cb, sb, i)
+
+// positions 0..i-1 are ties
+//@ define tiesBefore(ca []component, sa []string, cb []component, sb []string, i int) = forall j int :: {at(ca, sa, cb, sb, j)} 0 <= j && j < i ==> at(ca, sa, cb, sb, j) == 2
+
+// lexicographic verdict: r is what the first position that is not a tie contributes
+//@ define lexVerdict(ca []component, sa []string, cb []component, sb []string, i int, r int) = 0 <= i && tiesBefore(ca, sa, cb, sb, i) && at(ca, sa, cb, sb, i) == r && r != 2
+
+// specType as a named function (usable as a quantifier trigger)
+//@ define typeAt(cs []component, i int) = specType(cs, i)
+
+//@ func (*componentReader).next
+//@   props C37
+//@   nopanic
+//@   requires r != nil && 0 <= r.index && len(r.components) <= len(r.submatches)
+//@   ensures [type] result0 != nil && result0.compType == typeAt(r.components, old(r.index))
+//@   ensures [text] result1 == specSubm(r.components, r.submatches, old(r.index))
+//@   ensures [step] r.index == ite(old(r.index) < len(r.components), old(r.index) + 1, old(r.index))
+//@   ensures [same] r.components == old(r.components) && r.submatches == old(r.submatches)
+//@   ensures [others] forall q *componentReader :: {q.index} q != r ==> q.index == old(q.index)
+
+//@ func (PatternVariant).Compare
+//@   props C37
+//@   ensures [lex] result1 == nil ==> exists i int :: {typeAt(other.components, i)} lexVerdict(v.components, final(selfSubmatches)[1:], other.components, final(otherSubmatches)[1:], i, result0)
+//@   ensures [counts] result1 == nil ==> len(final(selfSubmatches)) == len(v.components) + 1 && len(final(otherSubmatches)) == len(other.components) + 1
+//@   ensures [error] result1 != nil ==> result0 == 0
+//@   loop 0: frame
+//@   loop 0: invariant 0 <= selfReader.index && selfReader.index == otherReader.index
+//@   loop 0: invariant selfReader.components == v.components && selfReader.submatches == selfSubmatches[1:] && len(selfSubmatches) == len(v.components) + 1
+//@   loop 0: invariant otherReader.components == other.components && otherReader.submatches == otherSubmatches[1:] && len(otherSubmatches) == len(other.components) + 1
+//@   loop 0: invariant tiesBefore(v.components, selfSubmatches[1:], other.components, otherSubmatches[1:], selfReader.index)
+
+// ---- the verdict Compare computes is a consistent ordering ---------------------------------
+
+// what is used of Go's order on strings (left uninterpreted by the verifier)
+//@ define strOrderOK() = (forall x string, y string :: {strLess(x, y)} strLess(x, y) ==> !strLess(y, x)) && (forall x string, y string :: {strLess(x, y)} !strLess(x, y) && !strLess(y, x) ==> x == y) && (forall x string, y string, z string :: {strLess(x, y), strLess(y, z)} strLess(x, y) && strLess(y, z) ==> strLess(x, z))
+
+//@ func lemFlip
+//@   lemma
+//@   props C37
+//@   requires strOrderOK()
+//@   ensures forall j int :: {at(cb, sb, ca, sa, j)}{at(ca, sa, cb, sb, j)} at(cb, sb, ca, sa, j) == ite(at(ca, sa, cb, sb, j) == 2, 2, -at(ca, sa, cb, sb, j))
+
+// swapping the two sequences negates what every position contributes (ties stay ties)
+func lemFlip(ca []component, sa []string, cb []component, sb []string) {}
+
+//@ func lemLexAntisym
+//@   lemma
+//@   props C37
+//@   requires strOrderOK()
+//@   requires lexVerdict(ca, sa, cb, sb, i1, r1) && lexVerdict(cb, sb, ca, sa, i2, r2)
+//@   ensures i1 == i2 && r2 == -r1
+
+// Compare(a, b) == -Compare(b, a): both are decided at the same position, with opposite signs
+func lemLexAntisym(ca []component, sa []string, cb []component, sb []string, i1, r1, i2, r2 int) {
+	lemFlip(ca, sa, cb, sb)
+}
+
+//@ func lemLexUnique
+//@   lemma
+//@   props C37
+//@   requires lexVerdict(ca, sa, cb, sb, i1, r1) && lexVerdict(ca, sa, cb, sb, i2, r2)
+//@   ensures i1 == i2 && r1 == r2
+
+// the verdict is a function of the two sequences and their sub-matches
+func lemLexUnique(ca []component, sa []string, cb []component, sb []string, i1, r1, i2, r2 int) {}
+
+//@ func lemCompose
+//@   lemma
+//@   props C37
+//@   requires strOrderOK()
+//@   ensures [tie-left] forall j int :: {at(ca, sa, cc, sc, j)} at(ca, sa, cb, sb, j) == 2 ==> at(ca, sa, cc, sc, j) == at(cb, sb, cc, sc, j)
+//@   ensures [tie-right] forall j int :: {at(ca, sa, cc, sc, j)} at(cb, sb, cc, sc, j) == 2 ==> at(ca, sa, cc, sc, j) == at(ca, sa, cb, sb, j)
+//@   ensures [decided] forall j int :: {at(ca, sa, cc, sc, j)} at(ca, sa, cb, sb, j) != 2 && at(cb, sb, cc, sc, j) != 2 && at(ca, sa, cb, sb, j) >= 0 && at(cb, sb, cc, sc, j) >= 0 ==> at(ca, sa, cc, sc, j) != 2 && at(ca, sa, cc, sc, j) >= 0 && (at(ca, sa, cc, sc, j) == 0 ==> at(ca, sa, cb, sb, j) == 0 && at(cb, sb, cc, sc, j) == 0)
+
+// how the contributions of one position compose over three sequences
+func lemCompose(ca []component, sa []string, cb []component, sb []string, cc []component, sc []string) {
+}
+
+//@ func lemLexTrans
+//@   lemma
+//@   props C37
+//@   requires strOrderOK()
+//@   requires lexVerdict(ca, sa, cb, sb, i1, r1) && lexVerdict(cb, sb, cc, sc, i2, r2) && lexVerdict(ca, sa, cc, sc, i3, r3)
+//@   requires r1 >= 0 && r2 >= 0
+//@   ensures [geq] r3 >= 0
+//@   ensures [strict] r1 > 0 || r2 > 0 ==> r3 > 0
+
+// a >= b and b >= c imply a >= c (strictly if one of them is strict): with lemLexAntisym the verdict
+// is a total preorder on the variants matching one path, so "no other variant compares higher" does
+// not depend on the order the variants are examined in
+func lemLexTrans(ca []component, sa []string, cb []component, sb []string, cc []component, sc []string, i1, r1, i2, r2, i3, r3 int) {
+	lemCompose(ca, sa, cb, sb, cc, sc)
+}
+
+// ---- rejected input: the scanner's and parser's guards ----------------------------------------
+
+//@ func scan
+//@   props C37
+//@   ensures [empty] len(text) == 0 ==> err != nil
+//@   ensures [slash] len(text) > 0 && text[0] != '/' ==> err != nil
+
+//@ func specTT
+//@   pure
+
+// type of the next token, end-of-file when none is left
+func specTT(ts []token) tokenType {
+	if len(ts) == 0 {
+		return tokEOF
+	}
+	return ts[0].tType
+}
+
+//@ func (tokenReader).peek
+//@   props C37
+//@   nopanic
+//@   ensures result.tType == specTT(tr.tokens)
+//@   ensures len(tr.tokens) > 0 ==> result.text == tr.tokens[0].text
+
+//@ func (*tokenReader).token
+//@   props C37
+//@   nopanic
+//@   requires tr != nil
+//@   ensures [type] result.tType == specTT(old(tr.tokens))
+//@   ensures [advance] tr.tokens == ite(specTT(old(tr.tokens)) == tokEOF, old(tr.tokens), old(tr.tokens)[1:])
+//@   ensures [depth] tr.depth == old(tr.depth)
+
+//@ func (interfaces/prompting/patterns.renderNode).nodeEqual
+//@   trusted
+//@   assigns nothing
+
+// simplifying a parsed sequence never fails; simplifying a group fails only when it has no item
+//@ func (seq).optimize
+//@   props C37
+//@   ensures result1 == nil
+
+//@ func (alt).optimize
+//@   props C37
+//@   ensures [never-empty] len(n) >= 1 ==> result1 == nil
+//@   loop 0: invariant -1 <= idx0 && idx0 < len(n) && len(newAlt) == len(seen) && (idx0 >= 0 ==> len(newAlt) >= 1)
+//@   loop 1: invariant -1 <= idx1 && idx1 < len(seen)
+
+// a group is only accepted while the nesting depth stays below the limit
+//@ func parseAlt
+//@   props C37
+//@   requires tr != nil
+//@   ensures [bound] result1 == nil ==> old(tr.depth) + 1 < maxExpandedPatterns
+//@   ensures [open] specTT(old(tr.tokens)) != tokBraceOpen ==> result1 != nil
+//@   loop 0: invariant tr == old(tr)
